@@ -57,7 +57,7 @@ def run(report, db, tier):
     fi = db.get_func(ENC, 'create_AES_cipher')
     t = value_of(fi)
     report.note('terms', '%s = %s' % (fi.name, show(t)))
-    p = ('sym', fi.params[0])
+    p = ('sym', fi.all_params[0])
     if not ext_call(t, CRY + 'ciphers.Cipher'):
         raise AnalysisError('create_AES_cipher: not a Cipher(...) term: %s'
                             % show(t), fi.node, rel(fi.path))
@@ -134,7 +134,7 @@ def run(report, db, tier):
     if not (t[0] in ('tuple', 'list') and len(t[1]) == 2):
         raise AnalysisError('encrypt_token_and_secret: result is not a '
                             'pair: %s' % show(t), ei.node, rel(ei.path))
-    for it, pname in zip(t[1], (ei.params[1], ei.params[2])):
+    for it, pname in zip(t[1], (ei.all_params[1], ei.all_params[2])):
         okk = it[0] == 'call' and it[1][0] == 'attr' and \
             it[1][2] == 'encrypt' and len(it[2]) == 2 and \
             struct(it[2][0]) == ('sym', pname)
@@ -154,9 +154,9 @@ def run(report, db, tier):
                              'protocol prescribes PKCS#1 v1.5' % (
                                  pname, show(pad)))
         if ext_call(key, CRY + 'serialization.load_der_public_key') and \
-                key[2] and struct(key[2][0]) == ('sym', ei.params[0]):
+                key[2] and struct(key[2][0]) == ('sym', ei.all_params[0]):
             report.ok(R3, '%s: key = load_der_public_key(%s)' % (
-                pname, ei.params[0]))
+                pname, ei.all_params[0]))
         else:
             report.violation(R3, 'rsa:key:%s' % pname, ei.path, ei.node,
                              ei.qualname, '%s is encrypted under %s, not '
@@ -169,7 +169,7 @@ def run(report, db, tier):
     from ..protocol import Proto
     P = Proto(db)
     S = shared.summariser(db, cg)
-    pk = ('sym', react.params[1])
+    pk = ('sym', react.all_params[1])
     arms = {}
     for p in S.run(react):
         arms.setdefault(shared.arm_of(p, pk), []).append(p)
